@@ -28,6 +28,17 @@ def findings(reply, sources, per_def=False):
     return sorted([norm(r) for r in parse] + [norm(r) for _, _, rs in batches for r in rs])
 
 
+HAND = [
+    "pragma circom 2.0.0;\nfunction f(wide) { var n = 8; if (wide) { n = 16; } if (n == 8) { return 1; } return 2; }\n"
+    "template T(wide) { signal input in; signal output out; var n = 8; if (wide == 1) { n = 16; } component c = Num2Bits(n); c.in <== in; out <== c.out[0]; }\n"
+    "template Num2Bits(n) { signal input in; signal output out[n]; for (var i = 0; i < n; i++) { out[i] <-- (in >> i) & 1; } }\n",
+    "pragma circom 2.0.0;\nfunction g(a, b) { var x = 1; var y = 2; if (a) { x = 2; y = 1; } else { if (b) { x = 3; } } if (x == y) { return 0; } if (x == 1) { return 1; } return y; }\n",
+    "pragma circom 2.0.0;\ntemplate Inner(n) { signal input a; signal output b; var n = 2; b <-- a * n; b === a * 2; }\n"
+    "template Outer() { signal input x; signal output y; component i = Inner(1); i.a <== x; y <== i.b; }\n"
+    "template Third() { signal input p; signal input q; signal output r; r <-- p >> 1; p === r * 2; q === r * 2 + 1; }\n",
+]
+
+
 def build(defs, order, extra=None, main=None):
     toks = ["pragma circom", "2.0.0", ";"]
     for i in order:
@@ -74,6 +85,13 @@ def run(ctx):
             xf, _ = g.function("unrelated_fn")
             add("extra-defs", {"main.circom": build(defs, idx, extra=[xt, xf])}, ["main.circom"])
             add("extra-defs-first", {"main.circom": gen.render(["pragma circom", "2.0.0", ";"] + xt + xf) + build(defs, idx).split("\n", 1)[1]}, ["main.circom"])
+        # hand-written projects whose findings depend on facts merged at joins (sets and maps iterated inside the passes):
+        # repeated more often, since a hash-order dependence shows up only in a fraction of the runs
+        for hk, text in enumerate(HAND):
+            for rep in range(nrep * 3):
+                req = rl.materialize(wd, "h%d/r%d" % (hk, rep), {"files": {"main.circom": text}, "inputs": ["main.circom"], "libs": []})
+                variants.append((1000 + hk, "repeat %d" % rep, {"inputs": req["inputs"], "libs": [], "curve": "BN254"},
+                                 {"main.circom": text.encode("utf-8")}, {"main.circom": text}))
         # one process per request: a fresh hasher state each time
         replies = rl.pmap(lambda v: vlib.analyze([v[2]])[0], variants)
         by_proj = collections.defaultdict(list)
